@@ -750,6 +750,8 @@ def iter_next(ex, it):
         return Some(v)
     if type(it) is LazyIter:
         while True:
+            if it.kind == 'take_while' and it.state == 'done':
+                return NONE()
             r = iter_next(ex, it.inner)
             if r.variant == 'None':
                 return r
@@ -762,6 +764,22 @@ def iter_next(ex, it):
             elif it.kind == 'filter':
                 if ex.branch(ex.call_closure(Ref([it.clo], 0), [ValRef(r.fields[0])])):
                     return r
+            elif it.kind == 'take_while':
+                if ex.branch(ex.call_closure(Ref([it.clo], 0), [ValRef(r.fields[0])])):
+                    return r
+                it.state = 'done'
+                return NONE()
+            elif it.kind == 'skip_while':
+                if it.state == 'passed' or not ex.branch(ex.call_closure(Ref([it.clo], 0), [ValRef(r.fields[0])])):
+                    it.state = 'passed'
+                    return r
+            elif it.kind == 'map_while':
+                o = ex.call_closure(Ref([it.clo], 0), [r.fields[0]])
+                if o.variant == 'Some':
+                    return o
+                it.state = 'done'
+                it.kind = 'take_while'
+                return NONE()
             else:
                 raise Unmodelled('lazy iter ' + it.kind)
     if type(it) is Adt:
@@ -805,7 +823,7 @@ def m_into_iter(ex, c, a, m):
     return v if not isinstance(v, Ref) else dv
 
 
-@model(r'.* as Iterator>::(map|filter_map|filter)::<.+>')
+@model(r'.* as Iterator>::(map|filter_map|filter|take_while|skip_while|map_while)::<.+>')
 def m_iter_adapt(ex, c, a, m):
     return LazyIter(m.group(1), a[0], a[1])
 
@@ -984,9 +1002,11 @@ def m_map(ex, c, a, m):
         e = mp.items.pop(i)
         return Some(Tup(e[0], e[1]))
     if op == 'entry':
+        # std declares hash_map::Entry as {Occupied, Vacant} but btree_map::Entry as {Vacant, Occupied}
+        en = 'BTreeEntry' if kind.startswith('BTree') else 'Entry'
         if i is None:
-            return Adt('Entry', 'Vacant', [Adt('VacantEntry', None, [mp, S(k)])])
-        return Adt('Entry', 'Occupied', [Adt('OccupiedEntry', None, [Ref(mp.items[i], 1), mp, S(k)])])
+            return Adt(en, 'Vacant', [Adt('VacantEntry', None, [mp, S(k)])])
+        return Adt(en, 'Occupied', [Adt('OccupiedEntry', None, [Ref(mp.items[i], 1), mp, S(k)])])
     raise Unmodelled('call ' + c)
 
 
